@@ -319,15 +319,13 @@ def spelling_rule(ctx, chk, tables):
     if nt not in GA.nts:
         chk.undecided_("C06.R6", nt, "nonterminal not found in the assembler grammar")
         return
-    for k, p in enumerate(GA.productions(nt)):
-        terms = [s["name"].strip('"') for s in p["symbols"] if s["t"] == "term"]
+    from asm import GramEval, spelling_table
+    E = GramEval(GA)
+    for k, (src, emitted, p) in enumerate(spelling_table(E, nt)):
         where = f"{GA.g['file']}:{p['line']}"
-        if len(terms) != 1:
+        if src is None:
             chk.undecided_("C06.R6", f"{nt}#{k}", "not a single-terminal alternative")
             continue
-        src = terms[0]
-        ua = GA.main_user_action(p["action"])
-        emitted = literal_of(ua.get("ast"))
         if emitted is None:
             chk.undecided_("C06.R6", src, "action is not a string literal")
             continue
